@@ -24,7 +24,47 @@ func (g *Gen) recordCid(width int) cid.Cid {
 	return cid.NewCidV1([]uint64{cid.Raw, cid.DagCBOR, 0x0129}[g.pick(3)], m)
 }
 
+// bigBucketCases: one index whose single bucket is larger than a megabyte (27 000 records of 40 bytes):
+// the count the writer reports against the bytes written, the round trip and three lookups.
+func bigBucketCases(o *Out) {
+	const n = 27000
+	rec := func(i int) index.Record {
+		d := make([]byte, 32)
+		d[0], d[1], d[2], d[3] = byte(i>>24), byte(i>>16), byte(i>>8), byte(i)
+		for j := 0; j < 28; j++ {
+			d[4+j] = byte(i + j + 4)
+		}
+		m, _ := mh.Encode(d, mh.SHA2_256)
+		return index.Record{Cid: cid.NewCidV1(cid.Raw, m), Offset: uint64(100*i + 7)}
+	}
+	recs := make([]index.Record, n)
+	for i := range recs {
+		recs[n-1-i] = rec(i) // loaded in descending order
+	}
+	qs := []cid.Cid{rec(0).Cid, rec(n / 2).Cid, rec(n - 1).Cid}
+	for _, codec := range []string{"sorted", "mh"} {
+		idx := newIndex(codec)
+		res := "r=err"
+		if err := idx.Load(recs); err == nil {
+			var buf bytes.Buffer
+			nw, err := index.WriteTo(idx, &buf)
+			if err == nil {
+				res = fmt.Sprintf("r=ok n=%d len=%d ", nw, buf.Len())
+				rd := bytes.NewReader(buf.Bytes())
+				if back, err := index.ReadFrom(rd); err != nil {
+					res += "rt=err"
+				} else {
+					res += fmt.Sprintf("rt=ok rest=%d get=%s", rd.Len(), queryIndex(back, qs))
+				}
+			}
+		}
+		o.Line(fmt.Sprintf("idxbig codec=%s n=%d", codec, n), res)
+		o.Count("bigbucket/" + codec)
+	}
+}
+
 func famC11(g *Gen, o *Out, n int, thorough bool) {
+	bigBucketCases(o)
 	for c := 0; c < n; c++ {
 		nrec := g.pick(8)
 		if thorough {
